@@ -1,3 +1,4 @@
+import token
 import tokenize
 from pathlib import Path
 
@@ -32,6 +33,14 @@ class SourceFile:
         return self._source.asttokens()
 
     def _token_to_code(self, tokens):
+        if len(tokens) == 1 and tokens[0].type == token.STRING:
+            # black would handle a lone string like a module docstring
+            # and strip or pad it, which changes the value
+            prefix = "0\n"
+            code = self._format(prefix + tokens[0].string)
+            if code.startswith(prefix):
+                return code[len(prefix) :].strip()
+            return tokens[0].string
         return self._format(tokenize.untokenize(tokens)).strip()
 
     def _value_to_code(self, value):
